@@ -1,10 +1,10 @@
 """Configuration of ./check C12 (see lib/registry.py for the fields)."""
 CFG = dict(
-    claim="Theorem C12_no_crash (and the theorems listed under `theorems`) in coq/Props/C12.v, over all label sequences of the "
+    claim="Theorems C12_no_crash, C12_never_stalls (Q), C12_dispatch_sound, C12_dispatch_stream, C12_reset in coq/Props/C12.v, over all label sequences of the "
           "small-step model coq/Model/Server.v of one server connection (arbitrary peer, arbitrary handler behaviour, any "
           "interleaving); the model is run lock-step against the real goat.Server.Serve on every run.",
     props="Props/C12.v",
-    theorems=["C12_no_crash"],
+    theorems=["C12_no_crash", "C12_never_stalls", "C12_dispatch_sound", "C12_dispatch_stream", "C12_reset"],
     imports=["Model.Method", "Model.Client", "Model.Server", "Check.ServerC", "Check.C12c"],
     case_type="c12case",
     find_bad_from="find_bad_from",
@@ -16,7 +16,13 @@ CFG = dict(
                  "4": "probe / unary reply: a valid unary request was not answered with the handler's reply under the same id",
                  "5": "the server wrote an envelope of its own that the protocol does not call for",
                  "6": "the read loop was blocked or the connection ended in a conversation without faults whose handlers consume their input"},
-    rule="lock-step in synctest bubbles: real goat.Server.Serve on a scripted transport, handler bodies gated by the schedule",
+    rule="lock-step in synctest bubbles (real goat.Server.Serve on a scripted transport, handler bodies gated by the schedule; one action, "
+         "synctest.Wait, snapshot): ALL envelope sequences of length <= 2 (thorough <= 3) over an alphabet of 27 envelope shapes (each field "
+         "present / absent / undecodable, 2 stream ids, unary and stream methods, wrong destination, 4 kinds of bad method string, unknown "
+         "service / method, body / trailer / reset / other-type reset for unknown and open ids, duplicate opens, undecodable bodies), each "
+         "followed by a valid unary probe whose reply must arrive; seeded random sequences of length 4..40; field-level mutations of valid "
+         "conversations; handlers that abandon 0..4 unconsumed messages; random walks with arbitrary handler behaviour followed by the "
+         "probe; parseRawMethod against Model/Method.v on 230 strings. A process death or a wedge is a violation by itself.",
     assumptions=["payloads, metadata, names are opaque to the server connection (tokens)",
                  "the transport returns queued envelopes in order, then its error; honours its context in Read and in a blocked Write",
                  "quiescence = testing/synctest's durable blocking; goroutine roles are read from runtime.Stack frames"],
